@@ -79,6 +79,13 @@ class MaskMonitor(taps.Monitor):
         surv[np.unique(kept.ravel())] = True
         exp_pts = pts[surv]
         rtl = np.asarray(result.trilist)
+        had_orphans = len(np.unique(tl.ravel())) < len(pts)
+        if st["vmask"].all() and had_orphans and result.points.shape == pts.shape and np.array_equal(result.points, pts):
+            # nothing was masked out and the mesh already had vertices without a triangle: keeping them (a plain copy) is
+            # as good a reading of the statement as dropping them
+            ctx.bump("all_true_mask_on_mesh_with_unreferenced_vertices_kept_them")
+            surv = np.ones(len(pts), dtype=bool)
+            exp_pts = pts
         if result.points.shape != exp_pts.shape or not np.array_equal(result.points, exp_pts):
             ctx.fail("surviving_vertices_wrong", cls=cls, mech="orphans" if (st["vmask"] & ~surv).any() else "no_orphans",
                      n_expected=int(surv.sum()), n_got=int(result.n_points))
@@ -113,15 +120,17 @@ class MaskMonitor(taps.Monitor):
 
 
 def ref_area(p, tl):
-    t = p[tl].astype(float)
-    a = np.linalg.norm(t[:, 1] - t[:, 0], axis=1)
-    b = np.linalg.norm(t[:, 2] - t[:, 1], axis=1)
-    c = np.linalg.norm(t[:, 0] - t[:, 2], axis=1)
-    # Kahan's stable Heron formula
-    s = np.sort(np.stack([a, b, c], axis=1), axis=1)[:, ::-1]
-    a, b, c = s[:, 0], s[:, 1], s[:, 2]
-    v = (a + (b + c)) * (c - (a - b)) * (c + (a - b)) * (a + (b - c))
-    return 0.25 * np.sqrt(np.maximum(v, 0))
+    """Half the norm of the edge cross product, in extended precision (well conditioned for thin triangles too)."""
+    t = p[tl].astype(np.longdouble)
+    e1, e2 = t[:, 1] - t[:, 0], t[:, 2] - t[:, 0]
+    if p.shape[1] == 2:
+        c2 = (e1[:, 0] * e2[:, 1] - e1[:, 1] * e2[:, 0]) ** 2
+    else:
+        cx = e1[:, 1] * e2[:, 2] - e1[:, 2] * e2[:, 1]
+        cy = e1[:, 2] * e2[:, 0] - e1[:, 0] * e2[:, 2]
+        cz = e1[:, 0] * e2[:, 1] - e1[:, 1] * e2[:, 0]
+        c2 = cx * cx + cy * cy + cz * cz
+    return (0.5 * np.sqrt(c2)).astype(float)
 
 
 class GeomMonitor(taps.Monitor):
@@ -152,8 +161,15 @@ class GeomMonitor(taps.Monitor):
             exp = ref_area(p, tl)
             err = np.abs(np.asarray(r) - exp).max() / scale ** 2
             ctx.err("tri_areas_rel", err)
-            if r.shape != (len(tl),) or (r < 0).any() or err > (1e-7 if m.points.dtype == np.float64 else 1e-4):
-                ctx.fail("tri_areas_wrong", cls=cls, mech="%dD" % m.n_dims, err=float(err))
+            if r.shape != (len(tl),) or (r < 0).any() or not np.isfinite(r).all() or err > (1e-7 if m.points.dtype == np.float64 else 1e-4):
+                ctx.fail("tri_areas_wrong", cls=cls, mech="%dD" % m.n_dims + ("" if np.isfinite(r).all() else ":not_finite"), err=float(err))
+            elif m.points.dtype == np.float64:
+                # thin triangles: the area is small but well defined (rounding of the coordinates costs ~1e-16 * scale^2);
+                # judged relative to the triangle's own area
+                excess = np.abs(np.asarray(r) - exp) - (1e-12 * scale ** 2 + 1e-9 * exp)
+                if (excess > 0).any():
+                    k = int(np.argmax(excess))
+                    ctx.fail("tri_areas_wrong", cls=cls, mech="%dD:thin_triangle" % m.n_dims, got=float(r[k]), expected=float(exp[k]))
         elif self.name == "edge_lengths":
             t = p[tl]
             exp = np.stack([np.linalg.norm(t[:, 1] - t[:, 0], axis=1), np.linalg.norm(t[:, 2] - t[:, 1], axis=1),
@@ -197,6 +213,9 @@ class GeomMonitor(taps.Monitor):
             if n.shape != (len(tl), 3):
                 ctx.fail("tri_normals_wrong_shape", cls=cls)
                 return
+            some = area > 0
+            if some.any() and np.abs(np.linalg.norm(n[some], axis=1) - 1).max() > ntol:
+                ctx.fail("tri_normals_not_unit", cls=cls, mech="thin_triangle", err=float(np.abs(np.linalg.norm(n[some], axis=1) - 1).max()))
             if ok.any():
                 unit = np.abs(np.linalg.norm(n[ok], axis=1) - 1).max()
                 perp = max(np.abs((n[ok] * e1[ok]).sum(1) / np.linalg.norm(e1[ok], axis=1)).max(),
@@ -215,7 +234,7 @@ class GeomMonitor(taps.Monitor):
             t = p[tl]
             fn = np.cross(t[:, 1] - t[:, 0], t[:, 2] - t[:, 0])
             ln = np.linalg.norm(fn, axis=1, keepdims=True)
-            good = ln[:, 0] > 1e-6 * scale ** 2
+            good = (ln[:, 0] > 1e-6 * scale ** 2) | (ln[:, 0] == 0)      # an exactly degenerate face has no normal and contributes nothing
             fnu = np.where(ln > 0, fn / np.where(ln > 0, ln, 1), 0)
             acc = np.zeros_like(p)
             bad_vertex = np.zeros(len(p), dtype=bool)
@@ -253,6 +272,40 @@ def make_mesh(rng, cls, d, kind):
         pts, tl = base.points.copy(), base.trilist.astype(np.int64)
         if d == 3:
             pts = np.hstack([pts, rng.uniform(-2, 2, (len(pts), 1))])
+    elif kind == "sparse_large":
+        # a small triangulated region on a large vertex array (a cropped scan that keeps the full vertex buffer)
+        n = int(rng.integers(1500, 5000))
+        pts = rng.uniform(-10, 10, (n, d))
+        used = rng.choice(n, int(rng.integers(40, 120)), replace=False)
+        tl = np.array([rng.choice(used, 3, replace=False) for _ in range(int(rng.integers(25, 70)))], dtype=np.int64)
+    elif kind == "degenerate":
+        # ordinary triangles plus thin ones (height 1e-9 .. 1e-3 of the base) and exactly degenerate ones (a repeated
+        # position, three collinear grid points) that share vertices with the ordinary triangles
+        n0 = int(rng.integers(4, 9))
+        pts = gen.general_position(rng, n0, d)
+        tl = gen.cover_all_vertices(rng, n0, gen.trilist_for(rng, pts, "random"))
+        extra_p, extra_t = [], []
+        for _ in range(int(rng.integers(1, 4))):
+            a, b = (int(v) for v in rng.choice(n0, 2, replace=False))
+            lam = rng.uniform(0.2, 0.8)
+            base = pts[b] - pts[a]
+            off = rng.normal(size=d)
+            off -= base * (off @ base) / (base @ base)
+            off *= np.linalg.norm(base) / max(1e-300, np.linalg.norm(off)) * 10.0 ** rng.uniform(-9, -3)
+            extra_p.append(pts[a] + lam * base + off)
+            extra_t.append([a, b, n0 + len(extra_p) - 1])
+        if rng.random() < 0.7:
+            a, b = (int(v) for v in rng.choice(n0, 2, replace=False))
+            extra_p.append(pts[a].copy())                          # the same position under a second vertex id
+            extra_t.append([a, n0 + len(extra_p) - 1, b])
+        if rng.random() < 0.5:
+            a = int(rng.integers(0, n0))
+            step = np.zeros(d); step[rng.integers(0, d)] = 1.0
+            extra_p.append(pts[a] + step); extra_p.append(pts[a] + 2 * step)       # collinear, exactly representable offsets
+            extra_t.append([a, n0 + len(extra_p) - 2, n0 + len(extra_p) - 1])
+        pts = np.vstack([pts, np.array(extra_p)])
+        tl = np.vstack([tl, np.array(extra_t, dtype=tl.dtype)])
+        tl = tl[rng.permutation(len(tl))]
     else:
         n = int(rng.integers(4, 14))
         pts = gen.general_position(rng, n, d)
@@ -272,7 +325,7 @@ def make_mesh(rng, cls, d, kind):
     n = len(pts)
     if rng.random() < 0.3:
         tl = tl.astype(np.uint32)
-    if rng.random() < 0.2:
+    if rng.random() < 0.2 and kind != "degenerate":
         pts = pts.astype(np.float32)          # meshes loaded from files are often single precision
     if cls == "TriMesh":
         return ms.TriMesh(pts, trilist=tl)
@@ -283,7 +336,7 @@ def make_mesh(rng, cls, d, kind):
 
 
 CLASSES = ["TriMesh", "ColouredTriMesh", "TexturedTriMesh"]
-KINDS = ["grid", "delaunay", "random", "nonmanifold"]
+KINDS = ["grid", "delaunay", "random", "nonmanifold", "degenerate", "sparse_large"]
 
 
 def bucket(n):
@@ -293,13 +346,17 @@ def bucket(n):
 def w_mask(ctx, rng, i):
     cls = CLASSES[i % 3]
     d = 2 + (i // 3) % 2
-    kind = KINDS[(i // 6) % 4]
+    kind = KINDS[(i // 6) % 6]
+    if kind == "sparse_large" and (i // 36) % 4:
+        kind = "random"                 # the large meshes are a small share of the cases
     m = make_mesh(rng, cls, d, kind)
     if rng.random() < 0.5:
         m.landmarks["lm"] = gen.shape(rng, "PointCloud", d=d, n=4)
     tl = np.asarray(m.trilist)
     n = m.n_points
     mk = ["all", "partial", "orphan", "tri", "tri_single"][rng.integers(0, 5)]
+    if kind == "sparse_large" and rng.random() < 0.7:
+        mk = "few_removed"
     queried_before = bool(rng.random() < 0.5)
     if queried_before:
         # history: the parent answers its queries first; whatever it remembers must not leak into the derived mesh
@@ -308,6 +365,13 @@ def w_mask(ctx, rng, i):
             m.tri_normals(); m.vertex_normals()
     if mk == "all":
         mask = np.ones(n, dtype=bool)
+        r = m.from_mask(mask)
+    elif mk == "few_removed":
+        # some tens of vertices spread over the whole index range are removed; most triangles survive
+        mask = np.ones(n, dtype=bool)
+        mask[rng.choice(n, int(rng.integers(18, 90)), replace=False)] = False
+        if not mask[tl].all(axis=1).any():
+            mask[:] = True
         r = m.from_mask(mask)
     elif mk in ("partial", "orphan"):
         # keep the vertices of some whole triangles, plus (orphan) some vertices that end up without a triangle
@@ -348,7 +412,7 @@ def w_geometry(ctx, rng, i):
     from menpo.transform import Rotation, Translation, UniformScale
     cls = CLASSES[i % 3]
     d = 2 + (i // 3) % 2
-    kind = KINDS[(i // 6) % 4]
+    kind = KINDS[(i // 6) % 5]
     m = make_mesh(rng, cls, d, kind)
     if rng.random() < 0.5 and m.points.dtype == np.float64:
         # any overall size: millimetre-scale scans, unit-normalised shapes, kilometre-scale terrain
